@@ -272,6 +272,7 @@ func init() {
 				e1runS("counter-n2-d3-2fails", "counter", 2, 3, "tx", o, 2, 0), // two failed transactions in one history
 				e1runSP("map-live-n2-d3-3fails", "map", 2, 3, "tx", o, 3, 0, "live"),
 				e1runSP("map-tomb-n2-d3-2fails", "map", 2, 3, "tx", o, 2, 0, "tomb"),
+				e1runSP("counter-bulk-n2-d3", "counter", 2, 3, "tx one", o, 1, 0, "bulk"), // 1022 operations wait to be pushed when the next transaction commits
 				e1runSP("list-live-n2-d2-2fails", "list", 2, 2, "tx", o, 2, 0, "live"),
 				e1runSP("list-live-n2-d3", "list", 2, 3, "tx", o, 1, 0, "live"),
 				e1runSP("map-live-n2-d3", "map", 2, 3, "tx", o, 1, 0, "live"),
